@@ -35,7 +35,8 @@ def base_path(kind):
     if kind == 'int-full':
         extra = [('$TIMESTEP', '0.01'), ('$BTIM', '10:05:07'), ('$ETIM', '10:06:10.25'), ('$DATE', '03-OCT-2023')]
         for j in range(4):
-            extra += [('$P%dV' % (j + 1), str(300 + j)), ('$P%dG' % (j + 1), str(1.0 + j)), ('$P%dS' % (j + 1), 'lab %d' % j)]
+            # the first detector voltage is exactly 0 (a scatter channel without PMT): zero is a value, not "absent"
+            extra += [('$P%dV' % (j + 1), str(300 + j) if j else '0'), ('$P%dG' % (j + 1), str(1.0 + j)), ('$P%dS' % (j + 1), 'lab %d' % j)]
         lay = dict(datatype='I', bits=[16] * 4, ranges=[1024] * 4, names=NAMES, pne=['0,0', '0,0', '4,1', '3,0'], events=ev,
                    byteord='4,3,2,1', extra=extra, analysis=[('GATE', 'g1')])
     elif kind == 'float':
@@ -74,6 +75,8 @@ def ops():
         'rows:one': lambda d: d[2:3] if d.shape[0] > 3 else None,
         'to_rfi': lambda d: FlowCal.transform.to_rfi(d),
         'to_mef': lambda d: FlowCal.transform.to_mef(d, chan(d, ['FL1', 'FL2']), sc[:len(chan(d, ['FL1', 'FL2']))], chan(d, ['FL1', 'FL2'])) if chan(d, ['FL1', 'FL2']) else None,
+        # a decreasing standard curve is legal: the converted range is then a decreasing pair
+        'to_mef:decreasing': lambda d: FlowCal.transform.to_mef(d, chan(d, ['FL1']), [lambda x: 2.5e6 / (np.abs(x) + 1.0)], chan(d, ['FL1'])) if chan(d, ['FL1']) else None,
         'high_low': lambda d: FlowCal.gate.high_low(d),
         'start_end': lambda d: FlowCal.gate.start_end(d, 2, 1) if d.shape[0] >= 3 else None,
         'density2d': lambda d: FlowCal.gate.density2d(d, list(d.channels[:2]), bins=[8, 8], gate_fraction=0.6, sigma=1.0) if d.shape[1] >= 2 and d.shape[0] >= 2 else None,
